@@ -42,6 +42,7 @@ def log(*a):
 def parse_harnesses(module):
     """Harness table of one source module: name, tier, stub sets, unwind, description."""
     src = open(os.path.join(HARNESS, "src", module + ".rs")).read()
+    modpath = module.replace("/", "::")
     out = []
     for m in HARNESS_RE.finditer(src):
         attrs, name, sets, tier, desc = m.groups()
@@ -50,7 +51,7 @@ def parse_harnesses(module):
             dict(
                 module=module,
                 name=name,
-                full=module + "::" + name,
+                full=modpath + "::" + name,
                 tier=tier,
                 stubs=sets.split(),
                 unwind=int(uw.group(1)) if uw else None,
@@ -63,7 +64,16 @@ def parse_harnesses(module):
 def select(prop, tier, only=None):
     cfg = PROPS[prop]
     hs = []
+    mods = []
     for mod in cfg["modules"]:
+        if "*" in mod:
+            for f in sorted(glob.glob(os.path.join(HARNESS, "src", mod + ".rs"))):
+                m = os.path.relpath(f, os.path.join(HARNESS, "src"))[:-3]
+                if not m.endswith("/mod"):
+                    mods.append(m)
+        else:
+            mods.append(mod)
+    for mod in mods:
         for h in parse_harnesses(mod):
             pats = cfg.get("patterns")
             if pats and not any(re.search(p, h["name"]) for p in pats):
@@ -277,6 +287,8 @@ def playback_values(h, target_dir, extra, env, mem_kb, timeout_s):
         "-Z", "concrete-playback", "--concrete-playback=print", "--exact", "--output-format", "terse",
         "--harness-timeout", "%ds" % timeout_s, "--harness", h["full"],
     ] + [x for x in extra]
+    # the playback run is alone on the machine: give it room (trace generation needs more memory than the verdict)
+    mem_kb = max(mem_kb, 28 * 1024 * 1024)
     shell = "ulimit -v %d; exec %s" % (mem_kb, " ".join("'%s'" % c for c in cmd))
     e = dict(BASE_ENV)
     e.update(env)
